@@ -44,10 +44,30 @@ META = {
             "library-built spends (O2/O3)": "every signer subset (tapscript: subsets of size <= m) plus a duplicated signer, through sign_input / "
                                             "get_sig_* / finalize_* / initialize+finalize_p2tr_multisig / sign_p2tr_keypath; O3: the committed "
                                             "hash / output key replaced by any different value",
+            "leaf switch on one object (O4)": "P2TR outputs whose tree has two tapscript multisig leaves sharing a signer, built through "
+                                              "MultiSigTapScript / TapBranch / ControlBlock (one path hash): {2-of-{k0,k1} | 1-of-{k0}}, "
+                                              "{1-of-{k0,k1} | 1-of-{k1}}, {2-of-{k0,k1,k2} | 1-of-{k0,k2}}, either leaf first; history on ONE Tx / "
+                                              "TxIn / Witness object: initialize_p2tr_multisig(leaf X), get_sig_taproot by every signer subset of "
+                                              "size <= k, finalize_p2tr_multisig, witness emptied (items = [] ; for the full signer set also "
+                                              "del items[:] and a new Witness), initialize(leaf Y), every signer subset of size <= k signs, "
+                                              "finalize with the leaf-X signatures handed in too; keys, internal key, signatures, tx fields symbolic",
+            "signatures made for another hash type (O1)": "in every multi-signature shape of the ECDSA multisig templates each signature may be Valid on the digest of "
+                                                          "another signature's hash-type byte (it authorises only through its own byte); the "
+                                                          "first signature's byte is fully symbolic, the others are SIGHASH_ALL",
             "DER lemma (O0)": "all byte strings of length 0..13"},
         "thorough": {"templates": "adds 1-of-3, 3-of-3, 2-of-4, 3-of-5 P2SH, 1-of-1 / 2-of-2 / 3-of-3 / 2-of-4 P2WSH, 2-of-3 P2SH-P2WSH, "
-                                  "1-of-3 / 3-of-3 / 3-of-5 CHECKSIGADD", "attacker spends (O1)": "same shape grammar", "DER lemma (O0)": "length 0..14"}},
-    "outside": ["scripts other than the listed standard templates; taproot trees with more than one leaf (the control block carries no path hashes)",
+                                  "1-of-3 / 3-of-3 / 3-of-5 CHECKSIGADD", "attacker spends (O1)": "same shape grammar", "DER lemma (O0)": "length 0..14",
+                     "leaf switch on one object (O4)": "adds {2-of-{k0,k1} | 1-of-{k1}}, {2-of-{k0,k1} | 1-of-{k0,k1}}, {2-of-{k0,k1} | 2-of-{k1,k2}}, "
+                                                       "{3-of-3 | 2-of-3}, {3-of-{k0..k3} | 2-of-{k1,k3}}; every case with all three reset idioms and "
+                                                       "with / without handing in the first-leaf signatures"}},
+    "outside": ["scripts other than the listed standard templates; in the attacker obligations (O1) taproot trees with more than one leaf (the "
+                "control block carries no path hashes); two-leaf trees are covered for library-built spends only (O4), deeper trees, "
+                "timelocked leaves (CLTV / CSV prefix) and more than one switch of leaf per object are outside",
+                "judgement call (O4): after the witness of an input was emptied and the input initialised for another leaf, 'reported valid' "
+                "is what finalize_p2tr_multisig returns (it ends in verify_input); signatures made while the input pointed at the other leaf "
+                "may be handed to the finaliser and must simply not count; signer sets larger than k are not exercised (see below)",
+                "signatures Valid on the digest of a hash-type byte that no signature in the spend carries (Schnorr: cross-hash-type "
+                "validity is not enumerated, the per-item hash type is symbolic)",
                 "uncompressed script keys (an attacker-supplied 65-byte key item is in the bound, script keys are compressed)",
                 "elliptic-curve membership of attacker-supplied keys / nonces and degenerate signature values (s = 0 mod N): the real code raises "
                 "there, which cannot turn a rejection into an acceptance",
@@ -67,7 +87,9 @@ META = {
               "PrivateKey (O2/O3 only) -> signer whose sign()/sign_schnorr() return fresh symbolic signatures assumed Valid for its own key on "
               "the signed digest and for no other script key",
               "sha256 / ripemd160 uninterpreted on symbolic input, real on concrete input; print() empty"],
-    "assumptions": ["ideal signatures: the solver chooses freely which (key, digest, signature) triples are Valid; one signature is Valid for at most one key",
+    "assumptions": ["ideal signatures: the solver chooses freely which (key, digest, signature) triples are Valid; one signature is Valid for at most "
+                    "one key (over its own digest and the digests of the other hash-type bytes present in the spend)",
+                    "O4 / O2-edited: an honest signature is Valid only for the digest it was made for",
                     "collision freeness, asserted per pair of hash calls on a path: equal digests imply equal inputs (also against digests "
                     "of constants and across input lengths)",
                     "taproot commitment binding: tweaked_key is injective in (internal key, tweak)",
@@ -221,8 +243,12 @@ def verify_schnorr_ideal(key_x, msg, sig):
     r = valid_schnorr(key_x, msg, sig)
     if UNFORGEABLE[0]:
         for (k0, m0, s0) in SIGNED_S:
-            if len(s0) == len(sig) and (s0 is sig or bool(core.sbytes(s0) == sig)):
+            if len(s0) != len(sig) or len(m0) != len(msg):
+                continue
+            if s0 is sig:
                 assume_nq(s_or(s_not(r), core.sbytes(m0) == msg))
+            else:  # no fork on whether two signatures coincide
+                assume_nq(s_or(s_not(r), core.sbytes(s0) != sig, core.sbytes(m0) == msg))
     return r
 
 
@@ -496,6 +522,8 @@ def reset_path():
     ST.nsig = 0
     ST.inj = True
     del shims.HASH_CALLS[:]
+    del SIGNED_E[:]  # honest signatures are per path
+    del SIGNED_S[:]
     m = mods()
     return m
 
@@ -794,6 +822,33 @@ def authorised(t, vmap):
     return s_or(*[s_and(*[per_key[k] for k in sub]) for sub in itertools.combinations(range(nk), t.need)])
 
 
+def cross_terms(t, f, n_in, idx, cands, valid_e):
+    """xmap[(j, k, j2)]: the DER part of candidate j is a Valid signature of script key k on the reference digest of the hash-type
+    byte carried by ANOTHER candidate j2 (ECDSA templates).  Not part of the authorisation oracle -- a signature authorises only
+    through the digest of its own hash-type byte (sig_terms) -- but the solver is free to make such a triple Valid, and the
+    witness must say so for the replay to build a real signature of that kind (made for one hash type, presented with another)"""
+    xmap = {}
+    if t.schnorr:
+        return xmap
+    for (j, it) in cands:
+        der = it[:-1]
+        try:
+            if not der_wf(der):
+                continue
+        except Exception:
+            continue
+        for (j2, it2) in cands:
+            if j2 == j:
+                continue
+            try:
+                d = ref_digest(t, f, n_in, idx, it2[-1])
+                for k, key in enumerate(t.keys):
+                    xmap[(j, k, j2)] = valid_e(key, d, der)
+            except Exception:
+                continue
+    return xmap
+
+
 def _mval(v):
     if isinstance(v, SB):
         c = core.ctx()
@@ -824,12 +879,24 @@ def attack_path(tmpl, m, n, ss, wit, n_in=1, idx=0):
             if (j, k1) in vmap and (j, k2) in vmap:
                 assume_nq(s_not(s_and(vmap[(j, k1)], vmap[(j, k2)])))
     auth = authorised(t, vmap)
+    # several signatures present: which of them the model makes Valid on the digest of ANOTHER signature's hash-type byte
+    # (multisig templates: the only ones whose script checks more than one signature)
+    xmap = cross_terms(t, f, n_in, idx, cands, valid_ecdsa) if len(cands) >= 2 and not sp.foreign and t.name.endswith("-ms") else {}
+    if xmap:
+        # ideal signatures: one signature is valid for at most one key, whatever the digest
+        for (j, it) in cands:
+            per = [[v for (j0, k0), v in vmap.items() if j0 == j and k0 == k] + [v for (j0, k0, _j2), v in xmap.items() if j0 == j and k0 == k]
+                   for k in range(len(t.keys))]
+            for k1, k2 in itertools.combinations(range(len(t.keys)), 2):
+                if per[k1] and per[k2]:
+                    assume_nq(s_not(s_and(s_or(*per[k1]), s_or(*per[k2]))))
 
     def wfn(env):
         ssd, wd = sp.describe(env)
         shaped = [j for (j, it) in cands if t.schnorr or _mval(der_wf(it[:-1]))]
         return {"template": tmpl, "m": m, "n": n, "n_in": n_in, "idx": idx, "scriptsig_shape": ss, "witness_shape": wit,
                 "scriptsig": ssd, "witness": wd, "valid": sorted([j, k] for (j, k), v in vmap.items() if _mval(v)),
+                "valid_as": sorted([j, k, j2] for (j, k, j2), v in xmap.items() if _mval(v)),
                 "sig_shaped": shaped,
                 "tx": dict({v: env[v] for v in TXVARS}, prev=core.bytes_env(env, "prev", 32).hex())}
     if sp.foreign:
@@ -932,6 +999,12 @@ def rebuild(w):
     valid = {}
     for j, k in w["valid"]:
         valid.setdefault(j, k)
+    # items that are Valid only on the digest of another item's hash-type byte: a real signature made for that hash type,
+    # presented with the item's own hash-type byte
+    valid_as = {}
+    for j, k, j2 in w.get("valid_as", []):
+        if j not in valid:
+            valid_as.setdefault(j, (k, j2))
 
     def plain(d):
         k = d["k"]
@@ -971,7 +1044,11 @@ def rebuild(w):
                 continue
             ht = b[-1]
             try:
-                subst[j] = real_sign(t, t.signers[valid[j]] if j in valid else outsider, f, n_in, idx, ht, None, 0, L)
+                if j in valid_as:
+                    k, j2 = valid_as[j]
+                    subst[j] = real_sign(t, t.signers[k], f, n_in, idx, vals[j2][-1], None, 0, L)[:-1] + bytes([ht])
+                else:
+                    subst[j] = real_sign(t, t.signers[valid[j]] if j in valid else outsider, f, n_in, idx, ht, None, 0, L)
             except Exception:
                 pass
     for j, v in subst.items():
@@ -1256,6 +1333,165 @@ class RealTmplOrdered(Tmpl):
         self.signers = [ipriv.tweaked_key(self.root)] + privs
 
 
+# ------------------------------------------------------------------------------------------------ O4: one input re-pointed at another leaf
+
+def two_leaf_tree(md, points, specs, internal):
+    """P2TR output whose script tree has two k-of-n tapscript multisig leaves (specs: ((key indexes), k) per leaf), built through
+    the library: MultiSigTapScript -> TapLeaf -> TapBranch -> control blocks (one path hash each) -> scriptPubKey"""
+    tp = md.taproot
+    scripts = [tp.MultiSigTapScript([points[i] for i in ks], k) for (ks, k) in specs]
+    leaves = [sc_.tap_leaf() for sc_ in scripts]
+    tree = tp.TapBranch(leaves[0], leaves[1])
+    root = tree.hash()
+    spk = internal.p2tr_script(root)
+    q = internal.tweaked_key(root)
+    cbs = [tp.ControlBlock(lf.tapleaf_version, q.parity, internal, [leaves[1 - i].hash()]) for i, lf in enumerate(leaves)]
+    return scripts, leaves, spk, cbs
+
+
+def leaf_round(tx, idx, cb, script, privs, signers, handed):
+    """initialise the input for one leaf through the library, let `signers` sign (script path), finalise with the signatures
+    in `handed` (made earlier, for whatever the input pointed at then) plus the fresh ones"""
+    fresh = []
+    try:
+        tx.initialize_p2tr_multisig(idx, cb, script)
+        fresh = [tx.get_sig_taproot(idx, privs[i], ext_flag=1) for i in signers]
+        return bool(tx.finalize_p2tr_multisig(idx, list(handed) + fresh)), fresh
+    except Exception:
+        return False, fresh
+
+
+def reset_input(md, tx, idx, how):
+    ti = tx.tx_ins[idx]
+    if how == "items":  # the idiom of the library's own tests
+        ti.witness.items = []
+    elif how == "clear":
+        del ti.witness.items[:]
+    else:
+        ti.witness = md.witness.Witness()
+
+
+def leaf_authorised(md, spk, script, cb, spec, points, sigs, f, valid_s):
+    """the leaf now presented is authorised by `sigs`: at least k of its keys have, among the signatures handed to the
+    finaliser, one that is Valid on the script-path digest of this transaction for THIS leaf.  The digest is computed on a
+    reference transaction built from scratch (same fields, witness = [leaf script, control block]), not on the object
+    under test"""
+    ref = build_tx(md, spk, [], [script.raw_serialize(), cb.serialize()], 1, 0, f)
+    d = ref.sig_hash_bip341(0, ext_flag=1, hash_type=0)
+    ks, k = spec
+    per_key = [s_or(*[valid_s(points[i].xonly(), d, sg) for sg in sigs if len(sg) == 64]) if sigs else False for i in ks]
+    return s_or(*[s_and(*[per_key[a] for a in sub]) for sub in itertools.combinations(range(len(ks)), k)])
+
+
+def leafswitch_path(n, specs, first, s1, s2, stale, reset):
+    """history on ONE Tx / TxIn / Witness object: the input is prepared for leaf X of a two-leaf tree and signed by s1, finalised,
+    its witness is emptied, it is prepared for the other leaf Y, signed by s2 and finalised with the leaf-X signatures handed in
+    as well.  Demanded of each round: signed by exactly the k required keys of the leaf => reported valid; reported valid =>
+    k keys of the presented leaf have a signature that is Valid on this transaction's digest for the presented leaf"""
+    reset_path()
+    md = mods()
+    encs = [SBytes.sym(f"k{i}", 32) for i in range(n)]
+    ST.nohash += [_node(e) for e in encs]
+    internal = KeyStub(SBytes.sym("k.internal", 32))
+    for a, b in zip(encs, encs[1:]):
+        assume_nq(core.sbytes(a) < b)  # the library orders tapscript keys by x-only encoding: name them in that order
+    points = [KeyStub(e) for e in encs]
+    scripts, leaves, spk, cbs = two_leaf_tree(md, points, specs, internal)
+    cv = spk.commands[1]
+    assume_nq(s_or(*[cv[i] != 0 for i in range(len(cv) - 1)]))
+    privs = [PrivStub(p, f"k{i}", others=[e for j, e in enumerate(encs) if j != i]) for i, p in enumerate(points)]
+    f = sym_fields()
+    tx = build_tx(md, spk, [], [], 1, 0, f)
+    X, Y = first, 1 - first
+    UNFORGEABLE[0] = True
+    try:
+        r1, sigs1 = leaf_round(tx, 0, cbs[X], scripts[X], privs, s1, [])
+        reset_input(md, tx, 0, reset)
+        handed = [sg for sg in sigs1] if stale else []
+        r2, sigs2 = leaf_round(tx, 0, cbs[Y], scripts[Y], privs, s2, handed)
+        auth1 = leaf_authorised(md, spk, scripts[X], cbs[X], specs[X], points, sigs1, f, verify_schnorr_ideal) if r1 else True
+        auth2 = leaf_authorised(md, spk, scripts[Y], cbs[Y], specs[Y], points, handed + sigs2, f, verify_schnorr_ideal) if r2 else True
+    finally:
+        UNFORGEABLE[0] = False
+
+    def wfn(env):
+        return {"n": n, "specs": [[list(ks), k] for ks, k in specs], "first": first, "s1": list(s1), "s2": list(s2), "stale": stale,
+                "reset": reset, "tx": dict({v: env[v] for v in TXVARS}, prev=core.bytes_env(env, "prev", 32).hex())}
+    if len(s1) == specs[X][1]:
+        check(r1, "first leaf: a spend signed through the library with the required keys does not verify", witness=wfn)
+    check(auth1, "first leaf: reported valid without k valid signatures for the presented leaf", witness=wfn)
+    if len(s2) == specs[Y][1]:
+        check(r2, "after the input was re-pointed at another leaf: a spend signed with the required keys does not verify", witness=wfn)
+    check(auth2, "after the input was re-pointed at another leaf: reported valid without k valid signatures for the presented leaf "
+                 "(a signature commits to its leaf)", witness=wfn)
+    return f"{'ok' if r1 else 'rejected'}/{'ok' if r2 else 'rejected'}"
+
+
+def leafswitch_cases(specs, first, quick):
+    X, Y = first, 1 - first
+    out = []
+    for r1 in range(0, specs[X][1] + 1):
+        for s1 in itertools.combinations(specs[X][0], r1):
+            for r2 in range(0, specs[Y][1] + 1):
+                for s2 in itertools.combinations(specs[Y][0], r2):
+                    if not s1 and not s2:
+                        continue
+                    out.append((s1, s2, True, "items"))
+    if not quick:
+        out += [(s1, s2, st, rs) for (s1, s2, _st, _rs) in list(out) for st, rs in ((True, "clear"), (True, "new"), (False, "items"))]
+    else:
+        full = tuple(specs[X][0][:specs[X][1]])
+        out += [(full, (), True, "new"), (full, (), True, "clear")]
+    return out
+
+
+def ob_leafswitch(n, specs, first, quick=True):
+    cases = leafswitch_cases(specs, first, quick)
+    runs = [sym_run(lambda: leafswitch_path(n, specs, first, s1, s2, st, rs), timeout_ms=60000, max_violations=1) for (s1, s2, st, rs) in cases]
+    r = merge_runs(runs)
+    r["sample"] = {"tree": [f"{k}-of-{list(ks)}" for ks, k in specs], "first leaf": first, "cases (signers on first leaf, signers on second leaf, "
+                   "first-leaf signatures handed to the second finalisation, reset idiom)": [list(map(str, c)) for c in cases[:6]],
+                   "keys / internal key / signatures / transaction fields": "symbolic"}
+    if not any(k.strip("'").endswith("/ok") for k in r["classes"]) and not r["violations"]:
+        r["inconclusive"].append("reachability twin: the second leaf was never reported valid")
+    return r
+
+
+def replay_leafswitch(w):
+    md = native_mods()
+    n = w["n"]
+    specs = [(tuple(ks), k) for ks, k in w["specs"]]
+    privs = sorted([real_priv("script", i) for i in range(n)], key=lambda p: p.point.xonly())
+    ipriv = real_priv("script/internal", 0)
+    points = [p.point for p in privs]
+    scripts, leaves, spk, cbs = two_leaf_tree(md, points, specs, ipriv.point)
+    f = dict(w["tx"])
+    f["prev"] = bytes.fromhex(f["prev"])
+    tx = build_tx(md, spk, [], [], 1, 0, f)
+    X, Y = w["first"], 1 - w["first"]
+    r1, sigs1 = leaf_round(tx, 0, cbs[X], scripts[X], privs, w["s1"], [])
+    reset_input(md, tx, 0, w["reset"])
+    handed = list(sigs1) if w["stale"] else []
+    r2, sigs2 = leaf_round(tx, 0, cbs[Y], scripts[Y], privs, w["s2"], handed)
+    a1 = bool(leaf_authorised(md, spk, scripts[X], cbs[X], specs[X], points, sigs1, f, real_valid_s))
+    a2 = bool(leaf_authorised(md, spk, scripts[Y], cbs[Y], specs[Y], points, handed + sigs2, f, real_valid_s))
+    bad = []
+    if len(w["s1"]) == specs[X][1] and not r1:
+        bad.append("first leaf signed by the required keys but not reported valid")
+    if r1 and not a1:
+        bad.append("first leaf reported valid without k valid signatures")
+    if len(w["s2"]) == specs[Y][1] and not r2:
+        bad.append("second leaf signed by the required keys but not reported valid")
+    if r2 and not a2:
+        bad.append("second leaf reported valid without k valid signatures for that leaf")
+    tree = " | ".join(f"{k}-of-{list(ks)}" for ks, k in specs)
+    return {"violated": bool(bad),
+            "observed": f"P2TR tree [{tree}] on one Tx object: leaf {X} signed by keys {w['s1']} -> finalize {r1} (authorised {a1}); witness reset "
+                        f"({w['reset']}); leaf {Y} signed by keys {w['s2']}" + (", leaf-%d signatures handed in as well" % X if handed else "")
+                        + f" -> finalize {r2} (keys of leaf {Y} with a valid signature for leaf {Y} suffice: {a2})" + ("; " + "; ".join(bad) if bad else ""),
+            "expected": "valid iff k keys of the presented leaf signed for that leaf"}
+
+
 # ------------------------------------------------------------------------------------------------ shapes and registry
 
 def _j(*parts):
@@ -1366,6 +1602,15 @@ def obligations(tier):
         obs.append(Ob("O3-commitment", ob_honest, {"tmpl": tmpl, "m": m, "n": n, "cases": tuple(cases), "commit": "wrong"}, replay="honest"))
         # history: verify, change a committed output amount in place, verify again on the same object
         obs.append(Ob("O2-edited-after-signing", ob_honest, {"tmpl": tmpl, "m": m, "n": n, "cases": tuple(cases), "commit": "edited"}, replay="honest"))
+    # history on one Tx / Witness object over a two-leaf tree whose leaves share a signer
+    trees = [(2, (((0, 1), 2), ((0,), 1))), (2, (((0, 1), 1), ((1,), 1))), (3, (((0, 1, 2), 2), ((0, 2), 1)))]
+    if not q:
+        trees += [(2, (((0, 1), 2), ((1,), 1))), (2, (((0, 1), 2), ((0, 1), 1))), (3, (((0, 1), 2), ((1, 2), 2))), (3, (((0, 1, 2), 3), ((0, 1, 2), 2))),
+                  (4, (((0, 1, 2, 3), 3), ((1, 3), 2)))]
+    for (n, specs) in trees:
+        for first in (0, 1):
+            obs.append(Ob("O4-leaf-switch", ob_leafswitch, {"n": n, "specs": specs, "first": first, "quick": q}, replay="leafswitch",
+                          budget_s=400 if q else 2400))
     # a second input position: the proper spend shapes with the input under test at index 1 of 2
     for (tmpl, m, n) in (("p2pkh", 1, 1), ("p2wpkh", 1, 1), ("p2sh-ms", 1, 2), ("p2wsh-ms", 1, 2), ("p2tr-checksig", 1, 1), ("p2tr-csa", 1, 2)):
         shapes = attack_shapes(tmpl, m, n, tier)
